@@ -302,6 +302,8 @@ def observe_rimg(job):
         crval = (rng.uniform(0, 360), math.degrees(math.asin(rng.uniform(-0.97, 0.97))))
         if rng.random() < 0.15:
             crval = (rng.choice([0.0, 359.9, 0.05]), crval[1])
+        if rng.random() < 0.15:
+            crval = (crval[0] - 360.0, crval[1])       # the same reference position written with a negative longitude
         mode = rng.random()
         if mode < 0.4:      # on the image
             crpix = (rng.uniform(1, W), rng.uniform(1, H))
@@ -526,6 +528,11 @@ def observe_rtab(job):
             continue
         coords.append((a, b))
         bits.append(int(hp.ang2pix(ns, a, b, nest=True, lonlat=True)) in member)
+    conv = rng.random()
+    if conv < 0.2:          # the (-180, 180] longitude convention
+        coords = [((a - 360.0 if a > 180.0 else a), b) for (a, b) in coords]
+    elif conv < 0.3:        # one turn further on
+        coords = [(a + 360.0, b) for (a, b) in coords]
     func = job["func"]
     fmt = rng.choice(["csv", "fits"])
     rec = blank_table_record(job["id"], func, fmt)
